@@ -598,6 +598,16 @@ impl VariableType {
     }
 }
 
+/// Text of a finite domain bound. A bound of -0.0 is written as 0: the text reads back as 0,
+/// so writing `-0` would not survive being compiled and rendered again.
+fn bound_to_string(value: f64) -> String {
+    if value == 0.0 {
+        "0".to_string()
+    } else {
+        value.to_string()
+    }
+}
+
 impl fmt::Display for VariableType {
     fn fmt(&self, f: &mut fmt::Formatter<'_>) -> fmt::Result {
         let s = match self {
@@ -606,11 +616,11 @@ impl fmt::Display for VariableType {
                 (0.0, f64::INFINITY) => "NonNegativeReal".to_string(),
                 _ => format!(
                     "NonNegativeReal({}, {})",
-                    min,
+                    bound_to_string(*min),
                     if *max == f64::INFINITY {
                         "Infinity".to_string()
                     } else {
-                        max.to_string()
+                        bound_to_string(*max)
                     }
                 ),
             },
@@ -621,12 +631,12 @@ impl fmt::Display for VariableType {
                     if *min == f64::NEG_INFINITY {
                         "MinusInfinity".to_string()
                     } else {
-                        min.to_string()
+                        bound_to_string(*min)
                     },
                     if *max == f64::INFINITY {
                         "Infinity".to_string()
                     } else {
-                        max.to_string()
+                        bound_to_string(*max)
                     }
                 ),
             },
